@@ -303,6 +303,37 @@ fn prop_invalid(t: &mut Tape, st: &mut Stats) -> Result<(), Failure> {
 struct Walker<'a> {
     rest: &'a [Seg],
     actual: &'a str,
+    /// how the next nodes are asked for: 0 = deserialize_any, 1 = through deserialize_option,
+    /// 2 = through deserialize_newtype_struct, 3 = deserialize_struct (tables); one entry is
+    /// consumed per wrapper and per level, an empty list means 0
+    modes: &'a [u8],
+}
+
+impl<'a> Walker<'a> {
+    fn next_mode(&self) -> (u8, &'a [u8]) {
+        match self.modes.split_first() {
+            Some((m, rest)) => (*m, rest),
+            None => (0, &[]),
+        }
+    }
+}
+
+/// visitor of the wrappers: hands the inner deserializer back to the walker
+struct Wrap<'a>(Walker<'a>);
+impl<'de> Visitor<'de> for Wrap<'_> {
+    type Value = ();
+    fn expecting(&self, f: &mut std::fmt::Formatter<'_>) -> std::fmt::Result {
+        f.write_str("a present value")
+    }
+    fn visit_some<D: Deserializer<'de>>(self, d: D) -> Result<(), D::Error> {
+        self.0.deserialize(d)
+    }
+    fn visit_newtype_struct<D: Deserializer<'de>>(self, d: D) -> Result<(), D::Error> {
+        self.0.deserialize(d)
+    }
+    fn visit_none<E: de::Error>(self) -> Result<(), E> {
+        Err(E::custom("HARNESS: present value decoded as None"))
+    }
 }
 
 struct Wrong<'a>(&'a str);
@@ -320,10 +351,20 @@ impl<'de> DeserializeSeed<'de> for Wrong<'_> {
 impl<'de> DeserializeSeed<'de> for Walker<'_> {
     type Value = ();
     fn deserialize<D: Deserializer<'de>>(self, d: D) -> Result<(), D::Error> {
-        if self.rest.is_empty() {
-            return Wrong(self.actual).deserialize(d);
+        let (mode, modes) = self.next_mode();
+        let me = Walker { rest: self.rest, actual: self.actual, modes };
+        match mode {
+            1 => return d.deserialize_option(Wrap(me)),
+            2 => return d.deserialize_newtype_struct("Wrapper", Wrap(me)),
+            _ => {}
         }
-        d.deserialize_any(self)
+        if me.rest.is_empty() {
+            return Wrong(me.actual).deserialize(d);
+        }
+        if mode == 3 && matches!(me.rest[0], Seg::Key(_)) {
+            return d.deserialize_struct("Record", &[], me);
+        }
+        d.deserialize_any(me)
     }
 }
 impl<'de> Visitor<'de> for Walker<'_> {
@@ -337,7 +378,7 @@ impl<'de> Visitor<'de> for Walker<'_> {
         while let Some(k) = m.next_key::<String>()? {
             if &k == want && !found {
                 found = true;
-                m.next_value_seed(Walker { rest: &self.rest[1..], actual: self.actual })?;
+                m.next_value_seed(Walker { rest: &self.rest[1..], actual: self.actual, modes: self.modes })?;
             } else {
                 m.next_value::<IgnoredAny>()?;
             }
@@ -352,7 +393,7 @@ impl<'de> Visitor<'de> for Walker<'_> {
         let mut i = 0;
         loop {
             if i == *want {
-                if s.next_element_seed(Walker { rest: &self.rest[1..], actual: self.actual })?.is_none() {
+                if s.next_element_seed(Walker { rest: &self.rest[1..], actual: self.actual, modes: self.modes })?.is_none() {
                     return Err(de::Error::custom("HARNESS: index on path not found"));
                 }
             } else if s.next_element::<IgnoredAny>()?.is_none() {
@@ -410,10 +451,19 @@ fn prop_typed(t: &mut Tape, st: &mut Stats) -> Result<(), Failure> {
         return Ok(());
     }
     let (path, actual, kind) = t.pick(&paths).clone();
+    // how each node on the way is asked for (plain, Option<_>, newtype struct, struct)
+    let plain = t.chance(1, 3);
+    let modes: Vec<u8> = (0..path.len() + 3).map(|_| if plain { 0 } else { t.weighted(&[4, 2, 3, 2]) as u8 }).collect();
+    let modes = &modes[..];
     st.eval();
     st.class(&format!("typed.{actual}"));
+    for (m, name) in [(1u8, "typed.via-option"), (2, "typed.via-newtype"), (3, "typed.via-struct")] {
+        if modes.contains(&m) {
+            st.class(name);
+        }
+    }
     let text = &r.text;
-    let case = || json!({"text": text, "path": path_str(&path), "actual": actual});
+    let case = || json!({"text": text, "path": path_str(&path), "actual": actual, "modes": modes});
     // expected location of the offending item
     let expected_span: Option<Range<usize>> = if let Some((_, rg)) = r.map.values.iter().find(|(p, _)| *p == path) {
         Some(rg.clone())
@@ -434,12 +484,12 @@ fn prop_typed(t: &mut Tape, st: &mut Stats) -> Result<(), Failure> {
 
     // with source text
     for (who, res) in [
-        ("toml::from_str", Walker { rest: &path, actual }.deserialize(toml::de::Deserializer::new(text)).map_err(|e| (e.message().to_string(), e.span(), e.to_string()))),
+        ("toml::from_str", Walker { rest: &path, actual, modes }.deserialize(toml::de::Deserializer::new(text)).map_err(|e| (e.message().to_string(), e.span(), e.to_string()))),
         (
             "toml_edit::de::from_str",
             text.parse::<toml_edit::de::Deserializer>()
                 .map_err(|e| (e.message().to_string(), e.span(), e.to_string()))
-                .and_then(|d| Walker { rest: &path, actual }.deserialize(d).map_err(|e| (e.message().to_string(), e.span(), e.to_string()))),
+                .and_then(|d| Walker { rest: &path, actual, modes }.deserialize(d).map_err(|e| (e.message().to_string(), e.span(), e.to_string()))),
         ),
     ] {
         let (msg, span, rendered) = match res {
@@ -482,7 +532,7 @@ fn prop_typed(t: &mut Tape, st: &mut Stats) -> Result<(), Failure> {
     }
     // without source text: key path instead of a span
     let dm: toml_edit::DocumentMut = text.parse().map_err(|e| Failure::new("parse", format!("{e}"), case()))?;
-    match (Walker { rest: &path, actual }).deserialize(toml_edit::de::Deserializer::from(dm)) {
+    match (Walker { rest: &path, actual, modes }).deserialize(toml_edit::de::Deserializer::from(dm)) {
         Ok(()) => return Err(Failure::new("typed", "from DocumentMut: wrong type accepted".to_string(), case())),
         Err(e) => {
             if e.span().is_some() {
@@ -505,7 +555,7 @@ fn prop_typed(t: &mut Tape, st: &mut Stats) -> Result<(), Failure> {
 
 pub fn run(args: Args) -> ! {
     let mut rep = Report::new("C15", args.tier, args.seed);
-    rep.rule = "rejected inputs: labelled faults (optionally behind multi-byte characters), stray multi-byte characters, truncations, byte/line mutants of generated documents; exhaustive truncation of every fixture at every byte; for each error of DocumentMut, ImDocument, toml::from_str and toml_edit::de::from_str: non-empty message, span inside the document on char boundaries, rendering does not panic, `line L, column C` equals an independent character-based computation from span.start, echoed line is that line. Typed errors: a seed type walks to a chosen path of a valid document and asks for the wrong type there; with text the span must equal the offending item's source range (by construction), without text the rendering ends with the key path. non-trivial = error position not 0 and (multi-byte character before it on the line or at end of input); distinct by text".into();
+    rep.rule = "rejected inputs: labelled faults (optionally behind multi-byte characters), stray multi-byte characters, truncations, byte/line mutants of generated documents; exhaustive truncation of every fixture at every byte; for each error of DocumentMut, ImDocument, toml::from_str and toml_edit::de::from_str: non-empty message, span inside the document on char boundaries, rendering does not panic, `line L, column C` equals an independent character-based computation from span.start, echoed line is that line. Typed errors: a seed type walks to a chosen path of a valid document and asks for the wrong type there, each node on the way asked for plainly or through deserialize_option / deserialize_newtype_struct / deserialize_struct as chosen by the tape; with text the span must equal the offending item's source range (by construction), without text the rendering ends with the key path. non-trivial = error position not 0 and (multi-byte character before it on the line or at end of input); distinct by text".into();
     rep.assumptions = vec!["the expected line/column follows the wording of the property (characters, LF-separated lines, final LF part of the last line)".into()];
     KNOWN_F3.store(rep.is_known("F3"), std::sync::atomic::Ordering::Relaxed);
     KNOWN_F14.store(rep.is_known("F14"), std::sync::atomic::Ordering::Relaxed);
@@ -560,7 +610,7 @@ pub fn run(args: Args) -> ! {
     finish_run(&mut rep, "invalid", run);
     let run = run_tape("C15.typed", &prop_typed, 2000, args.tier.pick(200_000, 3_000_000), args.seed, w);
     finish_run(&mut rep, "typed", run);
-    for c in ["eof-with-newline", "eof-without-newline", "at-multibyte", "fault-line", "stray-multibyte", "truncation", "mutant", "value-or-key-error", "typed.string", "typed.integer", "typed.array", "typed.table", "typed.array-of-tables", "typed.datetime"] {
+    for c in ["eof-with-newline", "eof-without-newline", "at-multibyte", "fault-line", "stray-multibyte", "truncation", "mutant", "value-or-key-error", "typed.string", "typed.integer", "typed.array", "typed.table", "typed.array-of-tables", "typed.datetime", "typed.via-option", "typed.via-newtype", "typed.via-struct"] {
         rep.require_class(c);
     }
     rep.finish()
